@@ -545,6 +545,9 @@ func (p *panicErr) Error() string { return fmt.Sprintf("PANIC: %v", p.v) }
 func safeExec(tm *plush.Template, ctx *plush.Context) (out string, err error) {
 	defer func() {
 		if r := recover(); r != nil {
+			if simrt.IsAbort(r) {
+				panic(r)
+			}
 			out, err = "", &panicErr{r}
 		}
 	}()
@@ -554,6 +557,9 @@ func safeExec(tm *plush.Template, ctx *plush.Context) (out string, err error) {
 func safeRender(text string, ctx *plush.Context) (out string, err error) {
 	defer func() {
 		if r := recover(); r != nil {
+			if simrt.IsAbort(r) {
+				panic(r)
+			}
 			out, err = "", &panicErr{r}
 		}
 	}()
@@ -563,6 +569,9 @@ func safeRender(text string, ctx *plush.Context) (out string, err error) {
 func safeRenderR(r io.Reader, ctx *plush.Context) (out string, err error) {
 	defer func() {
 		if r := recover(); r != nil {
+			if simrt.IsAbort(r) {
+				panic(r)
+			}
 			out, err = "", &panicErr{r}
 		}
 	}()
@@ -572,6 +581,9 @@ func safeRenderR(r io.Reader, ctx *plush.Context) (out string, err error) {
 func safeBuffalo(text string, data, helpers map[string]interface{}) (out string, err error) {
 	defer func() {
 		if r := recover(); r != nil {
+			if simrt.IsAbort(r) {
+				panic(r)
+			}
 			out, err = "", &panicErr{r}
 		}
 	}()
